@@ -25,6 +25,16 @@ CLAIMED = {
              "sets, thorough: ~170 sets plus algorithm=definition for all 3375 boxes); random float cases only where "
              "the exact answer is robust.",
         note="TLC integer arithmetic; binary64 exact on quarter-integers; robust-case filter uses 1e-3 >= 1e-9"),
+    "C16": dict(
+        level="model_checking", design="3/C16",
+        technique="TLA+ spec RRTStar.tla/RRTLattice.tla model-checked by TLC (all sample sequences and index tie-breaks "
+                  "on a lattice); TLC's sample sequences drive the real generalGenerateTree; recorded runs (lattice and "
+                  "real findPath with random seeds/obstructions/budgets) validated by TLC against RRTStarTrace.tla",
+        text="TLC checks rootedness, acyclicity, cost bookkeeping, free edges, accepted-in-range, cheapest-parent-at-"
+             "insertion, one node per iteration and path-in-tree on the lattice model exhaustively, and decides for every "
+             "recorded run of the real planner whether each Reject/Place/Final/Path event is a step of that same spec; "
+             "nearest-neighbour answers are checked against brute force. Bounded exhaustive + random seeds.",
+        note="TLC; rtree answers treated as inputs (checked against brute force); float costs compared in 1e-4 units"),
 }
 
 NOT_YET = "check not built yet in this round (planned: see DESIGN.md section 3)"
